@@ -1,0 +1,25 @@
+//go:build verif
+
+package storage
+
+import "github.com/dgraph-io/badger/v4"
+
+// VerifDumpDB returns every key/value pair of the snapshots database in key order
+// (read-only; used by the verification harness to compare whole-database states).
+func (s *BadgerStore) VerifDumpDB() (keys [][]byte, vals [][]byte, err error) {
+	txn := s.snapshotsDB.NewTransaction(false)
+	defer txn.Discard()
+
+	it := txn.NewIterator(badger.DefaultIteratorOptions)
+	defer it.Close()
+	for it.Rewind(); it.Valid(); it.Next() {
+		item := it.Item()
+		v, err := item.ValueCopy(nil)
+		if err != nil {
+			return nil, nil, err
+		}
+		keys = append(keys, item.KeyCopy(nil))
+		vals = append(vals, v)
+	}
+	return keys, vals, nil
+}
